@@ -4,7 +4,7 @@ from . import common as C
 from .gens import *
 
 PROP = "C16"
-LEAN_MODULE = "RSV.Props.C16"
+LEAN_MODULE = "RSV.Props.C16all"
 RULE = ("proof: in the API model every slice/array index computed from caller-controlled values carries an explicit bounds check "
         "whose failure is the outcome `panic`, and the slice windows of the kernels (Encode/Verify/EncodeIdx/Update/both passes of "
         "Reconstruct, matrix and Leopard) are evaluated on the argument lengths and capacities with the same outcome; C16_* prove that no argument tuple reaches `panic`, which documented error each "
